@@ -65,6 +65,27 @@ def gen_cfgs(ctx, n):
         cfg.hook = True
         cfg.cap_mb = 0.0
         cfgs.append(cfg)
+    # directed: a mix of callable and constant hyper-parameters, constants changed by a scheduler before the checkpoint,
+    # loaded into a preconditioner constructed with other constants
+    for _ in range(3):
+        cfg = kfacsim.Config(rng, world=rng.choice([1, 2]))
+        names = ['damping', 'factor_decay', 'kl_clip', 'lr']
+        rng.shuffle(names)
+        cfg.hyper['damping'] = Fraction(1, 4)
+        cfg.hyper['factor_decay'] = Fraction(3, 4)
+        cfg.hyper['kl_clip'] = Fraction(1, 100)
+        cfg.hyper['lr'] = Fraction(1, 10)
+        lists = {'damping': [Fraction(1, 4), Fraction(1, 8), Fraction(1, 2)], 'factor_decay': [Fraction(1, 2), Fraction(3, 4), Fraction(7, 8)],
+                 'kl_clip': [Fraction(1, 100), None, Fraction(1, 10)], 'lr': [Fraction(1, 10), Fraction(1, 2)]}
+        for nm in names[:2]:
+            cfg.hyper[nm] = lists[nm]                       # callable
+        const = names[2]
+        cfg.hyper_changes = [{const: {'damping': Fraction(1, 64), 'factor_decay': Fraction(9, 10), 'kl_clip': Fraction(1, 500),
+                                      'lr': Fraction(1, 3)}[const]}]
+        cfg.perturb_ctor = True
+        it = ['f1'] * cfg.accum + ['s']
+        cfg.ops = it + ['h:0'] + it + ['v1', 'l11'] + it * 2
+        cfgs.append(cfg)
     # directed: a state kept in memory (not copied) while several factor updates go by, then rolled back to
     for world in (1, 2, 4):
         cfg = kfacsim.Config(rng, world=world)
@@ -131,7 +152,7 @@ def malformed(ctx):
 
 def run(ctx):
     kfacsim.run_batch(ctx, gen_cfgs(ctx, ctx.budget(70, 700)), STREAMS,
-                      oracles=(kfacsim.oracle_reference, oracle_roundtrip), whole_only_oracles=False)
+                      oracles=(kfacsim.oracle_reference, oracle_roundtrip, kfacsim.oracle_state_keys), whole_only_oracles=False)
     malformed(ctx)
 
 
